@@ -646,6 +646,7 @@ Proof.
     destruct (ptext f r Hin) as [t ->].
     cbn [map pend_p second_pass]. rewrite Cv. cbn [fixed v_backlog_chdir].
     rewrite (chdir_stays_p D _ _ f t I Hin).
+    destruct (backlog_verify fixed (w_fs w) (pf_dir f) (pf_rel f) (parse_path t)); [intros E; discriminate E|].
     destruct (renamer c w (pf_dir f) (pf_rel f) (parse_path t) false) as [w1 r1] eqn:R.
     pose proof (Safe_renamer L c w _ _ _ _ _ guarded_c Sf R) as Sf1.
     pose proof (renamer_p_step D f t _ w w1 r1 Hin I (proj1 (Safe_fs L _ Sf1)) R) as St.
